@@ -325,6 +325,11 @@ func (nfc *NfcSession) ReadFile(fileId uint16) (fileData []byte, err error) {
 			return nil, fmt.Errorf("[ReadFile] ParseTagAndLength error: %w", err)
 		}
 
+		// abort if the length is indefinite, as the file size cannot be determined from the header
+		if tmpTlvLength < 0 {
+			return nil, fmt.Errorf("[ReadFile] Indefinite-length TLV is not supported")
+		}
+
 		// abort if file length (TLV) exceeds configured maximum
 		if tmpTlvLength > nfc.readFileMaxTlvLength {
 			return nil, fmt.Errorf("[ReadFile] TLV length exceeds permitted maximum (len:%1d, max:%1d)", tmpTlvLength, nfc.readFileMaxTlvLength)
